@@ -11,12 +11,15 @@ META = dict(
           "break/continue/return, defs, lambdas with captures, calls, try/catch/finally, throw, native callbacks, vectors) with scopes/stacks/calls going "
           "through the three RAII combinators — for every program fragment, state, fault schedule, amount of fuel and hence every outcome (value, escaping "
           "break/continue/return, script throw, eval_error, any C++ exception from any callback invocation, or stopping mid-way), the number of stacks, the "
-          "scopes per stack, the length of call_params and the call depth are restored. The model is tied to the code by correspondence: generated programs "
+          "scopes per stack, the length of call_params and the call depth are restored. Also kernel-checked, by a second induction over the whole evaluator "
+          "[run_frame]: an evaluation only ever appends names to the innermost scope of the current stack — every other scope and every earlier name is exactly "
+          "as before [eval_only_extends_innermost_scope, earlier_declarations_survive] — so nothing declared inside a block, a loop or a function call survives "
+          "it, however it is left [block_leaves_nothing, loops_leave_nothing, call_leaves_nothing]. The model is tied to the code by correspondence: generated programs "
           "are printed by the model's own printer and run on the real engine, once without faults and once per (callback invocation x exception kind: "
           "runtime_error, out_of_range, logic_error, a non-std type, eval_error, Boxed_Value); result, output, callback log, the Stack_Holder's shape read "
           "through the hook, and the surviving top-level names must equal the model's; independently of the model the shape must be the resting shape, no "
           "saved parameters may remain, inner declarations must be gone and the engine must still evaluate. NOT proved: that the saved-parameter lists' "
-          "contents are released (checked on the real engine only), and name persistence (correspondence only)."),
+          "contents are released (checked on the real engine only)."),
     note=("Trusted: Lean kernel, the evaluator model Model/Chai (hand-written from chaiscript_eval.hpp; RAII is modelled by combinators), gen/progs.py, "
           "harness/evalprog.cpp, hook commit (friend Access). Classes/methods, maps, ranged-for and bind are not in the model yet."),
     design_ref="DESIGN.md §6 C09")
